@@ -19,7 +19,8 @@ has ended", never to decide what is correct).  Two families of sessions:
               resume_then_fs_suspend  handshake, 3 ms SE0 at HS, 200 us window ending in J -> HS suspend, SE0 pulses, resume to
                                       HS, drop to FS (restriction / VBUS), FS suspend + resume (a stale "was high speed"
                                       flag would re-enter HS here)
-              hs_reset_chain          handshake, 3 ms SE0 (exact, 1..10 short + glitch, or split), window ending in SE0 / K /
+              hs_reset_chain          handshake (40 %: every completing J exactly 152 cycles, so that the line is SE0 from the first
+                                      HS cycle on and nothing restarts a timer), 3 ms SE0 (exact, 1..10 short + glitch, or split), window ending in SE0 / K /
                                       SE1 / a J that disappears 2..12 cycles before the decision, restriction asserted inside
                                       the window (45 %), next handshake, possibly once more
               timeout                 handshake whose train holds at most two valid pairs plus junk; at the 2.5 ms deadline the
@@ -414,7 +415,7 @@ async def leave_hs_if_needed(d):
     await d.wait(4)
 
 
-def make_train(rng, kind):
+def make_train(rng, kind, fresh=False):
     """list of (line_state, duration) the host plays after the device chirp.  kind:
     valid    - first some hostile material (short states, glitches), then enough good pairs
     partial  - at most two pairs of >= 150 cycles plus junk (must not reach HS)"""
@@ -470,13 +471,17 @@ def make_train(rng, kind):
             out.append((v, n))
         train = out
         marks.append(("scan", want, pairs))                 # what a receiver of this train waits for at its end
+    elif fresh:
+        # every completing J is exactly as long as the device needs (152): the line is SE0 from the very cycle HS begins
+        for _ in range(4):
+            train += [(FS_K, rng.randint(152, 158)), (FS_J, 152)]
     else:
         for _ in range(4):
             train += [(FS_K, good()), (FS_J, good())]
     return train, marks
 
 
-async def run_handshake(d, kind, busy=False, restr_games=True):
+async def run_handshake(d, kind, busy=False, restr_games=True, fresh=False):
     """The device is in (or about to enter) chirp mode.  Plays line states during the device chirp and the host
     train afterwards.  Returns 'hs', 'fallback' or 'lost'."""
     rng = d.rng
@@ -510,7 +515,7 @@ async def run_handshake(d, kind, busy=False, restr_games=True):
     await d.until(p_no_dev_chirp, T_2MS + 2000)
     if rng.random() < 0.5:
         d.set("line", SE0)
-    train, marks = make_train(rng, kind)
+    train, marks = make_train(rng, kind, fresh)
     t_chirp_end = d.T
     scan = None
     for m in marks:
@@ -845,7 +850,7 @@ async def session_hs_walk(d):
                 await d.line(d.idle(), 10)
 
 
-async def fs_to_handshake(d, kind, busy_p=0.4, restr_p=0.4):
+async def fs_to_handshake(d, kind, busy_p=0.4, restr_p=0.4, fresh=False):
     """from FS (not suspended): a few harmless SE0 pulses, a bus reset, the handshake.  Returns 'hs' / 'fallback' / 'lost'."""
     rng = d.rng
     await se0_probes(d, rng.randint(1, 4), T_5US, allow_reset=False)
@@ -853,7 +858,7 @@ async def fs_to_handshake(d, kind, busy_p=0.4, restr_p=0.4):
         d.set("fso", 0); d.set("lso", 0)
         await d.wait(rng.randint(2, 30))
     await reset_from_fs(d)
-    r = await run_handshake(d, kind, busy=rng.random() < busy_p, restr_games=rng.random() < restr_p)
+    r = await run_handshake(d, kind, busy=rng.random() < busy_p, restr_games=rng.random() < restr_p, fresh=fresh)
     if r != "hs":
         await d.line(FS_J, rng.randint(10, 200))
         await d.line(d.idle(), 10)
@@ -864,12 +869,19 @@ WINDOW_SUSPEND = ["j", "late_j", "late_j", "blip"]
 WINDOW_RESET = ["se0", "k", "j_then_se0", "j_then_se0", "j_then_se0"]
 
 
-async def hs_idle_episode(d, variants, restrict_p):
-    """at HS: 3 ms of SE0 and the 200 us window.  Returns 'suspend' / 'reset' / 'lost'."""
+async def hs_idle_episode(d, variants, restrict_p, fresh=False):
+    """at HS: 3 ms of SE0 and the 200 us window.  Returns 'suspend' / 'reset' / 'lost'.
+    fresh: the line has been SE0 since the cycle HS operation began and stays so (no activity that would restart timers)."""
     rng = d.rng
-    await hs_games(d)
-    if not await hs_three_ms(d, split=rng.random() < 0.25):
-        return "lost"
+    if fresh:
+        d.mark("hs_se0_from_entry")
+        d.set("line", SE0)
+        if not await d.until(p_not_hs, T_3MS + 200):
+            return "lost"
+    else:
+        await hs_games(d)
+        if not await hs_three_ms(d, split=rng.random() < 0.25):
+            return "lost"
     variant = rng.choice(variants)
     restrict = rng.random() < restrict_p
     w = await hs_window(d, variant, restrict)
@@ -903,7 +915,7 @@ async def plan_resume_then_fs_suspend(d):
     if d.hs_op() or d.in_chirp_mode() or d.out["susp"]:
         return
     d.mark("fs_suspend_after_hs_suspend")
-    if await fs_suspend(d):
+    if await fs_suspend(d, "plain" if rng.random() < 0.35 else None):
         await suspended_games(d, "resume")
         await d.wait(10)
         await d.line(d.idle(), 50)
@@ -911,12 +923,13 @@ async def plan_resume_then_fs_suspend(d):
 
 async def plan_hs_reset_chain(d):
     rng = d.rng
-    if await fs_to_handshake(d, "valid", restr_p=0) != "hs":
+    fresh = rng.random() < 0.4
+    if await fs_to_handshake(d, "valid", restr_p=0, fresh=fresh) != "hs":
         return
-    for _ in range(rng.choice([1, 1, 1, 2])):
+    for i in range(rng.choice([1, 1, 1, 2])):
         if not d.hs_op():
             return
-        w = await hs_idle_episode(d, WINDOW_RESET if rng.random() < 0.8 else WINDOW_SUSPEND, 0.45)
+        w = await hs_idle_episode(d, WINDOW_RESET if rng.random() < 0.8 else WINDOW_SUSPEND, 0.45, fresh=(fresh and i == 0))
         if w == "suspend":
             if d.restricted():
                 d.set("fso", 0); d.set("lso", 0)
@@ -1253,6 +1266,9 @@ def workload_bins(res, d, out_tr, info, end):
         res.bin("hs_window_nonj_at_decision")
     for t in m.get("hs_se0_split", []):
         res.bin("hs_se0_split")
+    for t in m.get("hs_se0_from_entry", []):
+        if info["hsop"].at(t):
+            res.bin("hs_se0_from_first_hs_cycle")
     for t in m.get("fs_suspend_after_hs_suspend", []):
         if any(s >= t for s, _f in info["susp_runs"]):
             res.bin("fs_suspend_after_hs_suspend")
